@@ -46,6 +46,9 @@ var families = []family{
 	{"producer", "retry", 16, func(r *rand.Rand) map[string]int {
 		return map[string]int{"nmsg": pick(r, 1, 2, 3, 4), "rmax": pick(r, 0, 1, 2, 3), "flush": pick(r, 1, 2), "buf": pick(r, 0, 1, 4), "brokers": pick(r, 1, 2), "nerr": pick(r, 1, 2, 3)}
 	}},
+	{"producer", "twolevel", 8, func(r *rand.Rand) map[string]int {
+		return map[string]int{"nmsg": pick(r, 1, 2, 3), "rmax": 3, "flush": pick(r, 1, 2), "buf": pick(r, 0, 1, 4), "brokers": 1, "heal": pick(r, 1, 1, 0)}
+	}},
 	{"producer", "slowerr", 6, func(r *rand.Rand) map[string]int {
 		return map[string]int{"nmsg": pick(r, 1, 2, 3), "rmax": pick(r, 0, 1), "flush": pick(r, 1, 2), "buf": 0, "brokers": 1}
 	}},
